@@ -581,6 +581,22 @@ func (fr *Frame) contractCall(fc *FuncContract, callee *ssa.Function, args []*Va
 			results = []*Val{res}
 		}
 	}
+	if len(fc.GhostVars) > 0 {
+		// the callee's ghost variables are not observable by the caller: arbitrary values
+		nv := map[string]*Val{}
+		for k, v := range vars {
+			nv[k] = v
+		}
+		genv := &SpecEnv{fr: fr, vars: vars, cur: fr.st, old: pre, pkg: cpkg, nq: &n}
+		for _, g := range fc.GhostVars {
+			if te, err := parserParseExpr(g.Type); err == nil {
+				if t, err := genv.resolveType(te); err == nil && t != nil {
+					nv[g.Name] = fr.freshVal("callee.ghost."+g.Name, t)
+				}
+			}
+		}
+		vars = nv
+	}
 	penv := &SpecEnv{fr: fr, vars: vars, cur: fr.st, old: pre, pkg: cpkg, nq: &n, results: results}
 	if callee != nil {
 		sig := callee.Signature
